@@ -49,7 +49,7 @@ def run_one(pid, tier, replay=None):
         mod.run(ctx)
         floor = getattr(mod, "FLOOR", 1)
         n, ok, distinct = ctx.counts()
-        if n < floor:
+        if n < floor and not ctx.violations:
             raise AnalysisError(f"only {n} rule instances matched, hand-confirmed floor is {floor}: a rule is passing vacuously or an anchor moved")
     except AnalysisError as e:
         err = f"{e}"
